@@ -80,6 +80,10 @@ def build_ext(name):
     key = _hash_for({"readselect": ["readselect", "core", "priorityqueue"], "polyphase.solver": ["polyphase.solver", "core"]}.get(name, [name]))
     out = os.path.join(CACHE, "%s-%s%s" % (name, key, ext_suffix()))
     if os.path.exists(out):
+        try:
+            os.utime(out)  # mark as recently used (see the cleanup below)
+        except OSError:
+            pass
         return out
     os.makedirs(CACHE, exist_ok=True)
     work = os.path.join(CACHE, "build-%s-%s-%d" % (name, key, os.getpid()))
@@ -109,11 +113,16 @@ def build_ext(name):
         os.replace(tmp, out)
     finally:
         shutil.rmtree(work, ignore_errors=True)
-    # keep the cache small: drop older builds of the same extension
+    # keep the cache small: drop older builds of the same extension - but never one that was used
+    # within the last hours (concurrent runs on a mutated scratch copy would otherwise delete the
+    # build of the unchanged tree under the feet of a run that is about to load it)
+    import time
+
     for f in glob.glob(os.path.join(CACHE, name + "-*" + ext_suffix())):
         if f != out:
             try:
-                os.remove(f)
+                if time.time() - os.path.getmtime(f) > 6 * 3600:
+                    os.remove(f)
             except OSError:
                 pass
     return out
